@@ -104,6 +104,10 @@ func (g *Gen) rawStr() string {
 		if g.r.chance(25) {
 			s = s + " " + g.r.pick(regularPool)
 		}
+		if g.r.chance(10) {
+			// a text that is not a format string must never be used as one
+			s = s + g.r.pick([]string{" 50%", " %d", "%", " %%", " %w"})
+		}
 		g.Stats["str:regular"]++
 	}
 	return s
@@ -116,6 +120,9 @@ func (g *Gen) strc(safe bool) string {
 		if g.Hostile && g.r.chance(50) {
 			// token in the middle: hostile material on both sides
 			s = s + t + g.r.pick(hostilePool)
+		} else if safe && g.r.chance(8) {
+			// guillemets used as quotation marks in a safe constant: escaped, never a redaction envelope
+			s = "\u2039" + t + "\u203a " + s
 		} else if g.r.chance(50) {
 			s = t + " " + s
 		} else {
